@@ -313,5 +313,5 @@ SUBS = [
         floors={"nt": 0.261, "single_valued": 0.05, "weighted": 0.2, "n1": 0.02}),
     Sub("rates_exhaustive", check, enumerate=_enumerate, shards=16, exhaustive=True),
     Sub("mean_prediction", check_mean_prediction, strategy=_mp_cases, quick=600, thorough=10000, shards=4,
-        floors={"nt": 0.2, "weighted": 0.2, "int_predictions_real_weights": 0.05, "column_shaped_weights": 0.052}),
+        floors={"nt": 0.2, "weighted": 0.191, "int_predictions_real_weights": 0.05, "column_shaped_weights": 0.051}),
 ]
